@@ -100,6 +100,22 @@ func genData(r *Rng, shape string, n int) []byte {
 			}
 			b = append(b, []byte(string(rune(rg[0]+r.Intn(span+1))))...)
 		}
+	case "utf8bad": // valid UTF-8 except for a few long sequences whose 3rd or 4th byte is an ASCII character
+		b = genData(r, "utf8", n)
+		for k := 1 + r.Intn(2); k > 0 && len(b) > 8; k-- {
+			// find a lead byte of a 3- or 4-byte sequence from a random position
+			for i := r.Intn(len(b) - 4); i < len(b)-4; i++ {
+				if b[i] >= 0xE0 && b[i] < 0xF8 {
+					ln := 3
+					if b[i] >= 0xF0 {
+						ln = 4
+					}
+					pos := i + 2 + r.Intn(ln-2) // 3rd or 4th byte: the pair statistics of the quick validation do not see it
+					b[pos] = []byte{0x41, 0x20, 0x30, 0x7A}[r.Intn(4)]
+					break
+				}
+			}
+		}
 	case "dna":
 		al := "ACGT"
 		for len(b) < n {
